@@ -142,7 +142,14 @@ def narrow(fn, a, b, budget=None):
             d, p, q, simplex = gjk.gjk_distance_jolt(a, b)
             r = {"d": float(d)}
             if d == 0.0 and simplex is not None:
-                mtv, faces, success = epa.epa(simplex, a, b)
+                # rows GJK never wrote are zero thanks to the np.empty seam (in production they are uninitialised)
+                partial = bool(np.any(np.all(np.asarray(simplex) == 0.0, axis=1)))
+                r["partial_simplex"] = partial
+                try:
+                    mtv, faces, success = epa.epa(simplex, a, b)
+                except Exception as ex:
+                    ex.dsim_ctx = {"partial_simplex": partial}
+                    raise
                 r.update({"mtv": _vec(mtv), "success": bool(success), "faces": int(len(faces))})
         else:
             raise ValueError("unknown narrow-phase entry point %r" % fn)
